@@ -39,6 +39,11 @@ def check(run):
                     d2, nd = foreign.dup_table_entries(data, rng)
                     if nd:
                         src = cborgen.parse(d2)[0]
+                elif j == 1:
+                    # RFC 8618: an absent block-parameters-index means parameter set 0 - blocks of set 0 written without it
+                    d2, nd = foreign.drop_block_parameters_index(data, rng)
+                    if nd:
+                        src = cborgen.parse(d2)[0]; run.count("rewrite: block-parameters-index of set 0 omitted")
                 new = cborgen.encode(src, rng, p, cborgen.unknown_member if rng.random() < 0.7 else None)
                 lines.append("rd %s %s" % (rng.choice(["s", "s", "f"]), new.hex()))
                 metas.append((orig, data, new))
